@@ -82,6 +82,9 @@ def check_C01(run):
     # the three output formats: compiles, the declared API exists in the format's shape and computes the conversion
     import fam_formats
     fsumm, fobs = fam_formats.pipeline(run)
+    # the identifier allocator: bounded call sequences replayed on the real namer (no name handed out twice)
+    import fam_namer
+    fam_namer.pipeline(run)
     n += rsumm.get("generated", 0) + ssumm.get("generated", 0) + fsumm.get("generated", 0)
     d += rsumm.get("generated", 0) + ssumm.get("generated", 0) + fsumm.get("generated", 0)
     run.assumptions = ASSUME + ["Go's type checker is the observation (not re-specified); the spec contributes the generator-controlled causes (stale call edges, import alias shadowing)"]
